@@ -351,10 +351,24 @@ def registry():
             lambda x: [Contentlines([Contentline(ln) for ln in x]).to_ical()], lambda r: [i.decode("utf-8") if isinstance(i, bytes) else i for i in r],
             lambda r: r.append("added"), bad=[["SUMMARY:\u00e9\ud800"]]),
     ]
+    # inputs that are EQUAL IN PYTHON (and hash alike) but differ on the wire: the same instant in UTC and in a zone, the numbers 1 and 1.0.
+    # A result remembered per argument (functools.lru_cache, a dict) would answer the second with the first's text.
+    from zoneinfo import ZoneInfo as _ZI
+    from icalendar.prop import vDDDTypes as _vD, vDatetime as _vDT, vInt as _vI, vFloat as _vF, vPeriod as _vPeriod
+    same_utc = datetime(2024, 6, 1, 12, 0, tzinfo=_ZI("UTC"))
+    same_berlin = same_utc.astimezone(_ZI("Europe/Berlin"))
     F["C03"] = [
         Fun("vDDDLists.from_ical", ["20240105T090000,20240106T090000", "20240105"], lambda x: vDDDLists.from_ical(x), lambda r: [repr(d) for d in r],
             lambda r: r.append(datetime(2000, 1, 1))),
+        Fun("vDDDTypes / vDatetime of equal instants", [same_utc, same_berlin],
+            lambda d: [_vD(d).to_ical().decode(), sorted(_vD(d).params.items()), _vDT(d).to_ical().decode(), _vPeriod((d, timedelta(hours=1))).to_ical().decode()], list,
+            lambda r: r.append("added")),
+        Fun("vInt / vFloat of equal numbers", [1, 1.0], lambda x: [(_vF(x) if isinstance(x, float) else _vI(x)).to_ical().decode(), _vF(x).to_ical().decode()], list,
+            lambda r: r.append("added")),
     ]
+    cal_utc = cal_a.replace("DTSTART;TZID=Europe/Berlin:20240701T100000", "DTSTART:20240701T080000Z")
+    F["C14"].append(Fun("alarms.times of components that start at equal instants", [cal_a, cal_utc], lambda x: alarms_of(x).alarms.times, a_times, lambda r: r.append(r[0])))
+    F["C15"].append(Fun("alarms.active of components that start at equal instants", [cal_a, cal_utc], lambda x: alarms_of(x).alarms.active, a_times, lambda r: r.append(r[0])))
     return F
 
 
